@@ -7,6 +7,8 @@ ASSUME = [
     "per open file description, so goroutines of one process conflict exactly like processes (free mode adds real processes)",
     "hold intervals: [acq logged after the acquiring call returned, rel logged before the releasing call] for OpenFile/Edit/Create/Mutex; "
     "[first, last body file operation] for Read/Write/Transform; in free mode one O_APPEND log orders events of all processes, so a logged overlap is a real overlap",
+    "mode perm: every open for writing is refused with EACCES by the os shim (a lock file or data file the caller may read but not write): "
+    "the calls fail, and no call may enter a writer's critical section on a weaker open",
     "an unlocked per-domain witness file stamped and re-read by every write-lock holder detects overlap independently of any log",
 ]
 
@@ -18,6 +20,7 @@ def check(ctx):
     bugs = bug_sanity(ctx) if (not quick or ctx.selftest) else []
     jobs = [("dfs", "C06", "dfs", cfgs, ["-bound", "2" if quick else "3", "-maxruns", "1500" if quick else "60000"]),
             ("random", "C06", "random", cfgs, ["-runs", "1500" if quick else "40000"]),
+            ("perm", "C06", "perm", cfgs, ["-bound", "2", "-maxruns", "400" if quick else "5000"]),
             ("free", "C06", "free", cfgs, ["-runs", "2" if quick else "20", "-procs", "4", "-gor", "4", "-iters", "10" if quick else "20"])]
     results, files = drive_all(ctx, drv, jobs)
     recs, violations = lock_l1(ctx, files)
